@@ -65,12 +65,15 @@ def _get_last_result(
 
 
 def _update_optimal_result(
-    optimal_result: FunctionResults | None,
+    optimal_result: tuple[FunctionResults, FunctionResults] | None,
     results: tuple[Results, ...],
     transformed_results: tuple[Results, ...],
     constraint_tolerance: float | None,
-) -> FunctionResults | None:
-    return_result: FunctionResults | None = None
+) -> tuple[FunctionResults, FunctionResults] | None:
+    # The optimal result is passed, and returned, as a tuple of the result and
+    # its transformed version. The objectives are compared in the transformed
+    # domain, since that is the domain where the optimizer minimizes.
+    return_result: tuple[FunctionResults, FunctionResults] | None = None
     for item, transformed_item in zip(results, transformed_results, strict=False):
         if (
             isinstance(transformed_item, FunctionResults)
@@ -78,8 +81,11 @@ def _update_optimal_result(
             and not _violates_constraint(transformed_item, constraint_tolerance)
         ):
             assert isinstance(item, FunctionResults)
-            new_optimal_result = _get_new_optimal_result(optimal_result, item)
+            new_optimal_result = _get_new_optimal_result(
+                None if optimal_result is None else optimal_result[1],
+                transformed_item,
+            )
             if new_optimal_result is not None:
-                optimal_result = new_optimal_result
-                return_result = new_optimal_result
+                optimal_result = (item, transformed_item)
+                return_result = optimal_result
     return return_result
